@@ -91,15 +91,61 @@ func (c Case) real(st int) bool {
 	return c.TSDB != nil && st < len(c.TSDB.Widths) && c.TSDB.Widths[st] > 0
 }
 
-// extNames: the replica label names that are external labels of a real store.
+// extNames: the label names that are external labels of a real store: replica labels according to the layout and the
+// non-replica label region.
 func (c Case) extNames() []string {
+	var out []string
 	switch c.TSDB.Layout {
 	case 0:
-		return c.replicaLabelNames()
+		out = append(out, c.replicaLabelNames()...)
 	case 2:
-		return []string{"r"}
+		out = append(out, "r")
 	}
-	return nil
+	if c.Region {
+		out = append(out, regionLabel)
+	}
+	return out
+}
+
+// extReorders: some real TSDBStore of the case holds two series whose order by the labels known to its TSDB (minus the
+// replica labels the request removes) differs from the order of the label sets the store has to send for them, i.e. merging
+// the remaining external labels into the series changes their order (a store that streams in TSDB order is then unsorted).
+func (c Case) extReorders() bool {
+	ext := c.extNames()
+	for st := 0; st < c.stores(); st++ {
+		if !c.real(st) {
+			continue
+		}
+		var inner, sent []labels.Labels
+		for l := 0; l < c.L; l++ {
+			for k, p := range c.Place {
+				if p != st {
+					continue
+				}
+				full := c.fullLabels(l, k)
+				b := labels.NewBuilder(full)
+				for _, n := range ext {
+					b.Del(n)
+				}
+				out := full
+				if c.Dedup {
+					for _, n := range c.replicaLabelNames() {
+						b.Del(n)
+					}
+					out = c.logicalLabels(l)
+				}
+				inner, sent = append(inner, b.Labels()), append(sent, out)
+			}
+		}
+		for i := range inner {
+			for j := range inner {
+				if labels.Compare(inner[i], inner[j]) < 0 && labels.Compare(sent[i], sent[j]) > 0 {
+					return true
+				}
+			}
+		}
+	}
+	return false
 }
 
 // ---- pool of tsdb.DB heads, keyed by content (read only after the appends; shared by all cases) ----
@@ -373,14 +419,18 @@ func (c Case) realClient(st int, rec *frameRec) store.Client {
 			}
 			extLset = eb.Labels()
 			series = append(series, storedSeries{lset: sb.Labels(), ss: c.samples(l, k)})
-			// bytes of the labels the store sends for this series (all series of a case have label sets of the same size)
+			// bytes of the labels the store sends for a series: the largest label set of the store (label sets of the shapes 1
+			// and 2 differ by one short label, far less than a chunk: the chunks per frame stay as documented at tsdbFrames)
 			sent := full
 			if c.Dedup {
 				sent = c.logicalLabels(l)
 			}
-			labelBytes = 0
+			n := 0
 			for _, zl := range labelpb.ZLabelsFromPromLabels(sent) {
-				labelBytes += zl.Size()
+				n += zl.Size()
+			}
+			if n > labelBytes {
+				labelBytes = n
 			}
 		}
 	}
@@ -401,6 +451,36 @@ func (c Case) realClient(st int, rec *frameRec) store.Client {
 	return tc
 }
 
+// labelVariant: the logical series of a case (count, label-name shape, non-replica external label).
+type labelVariant struct {
+	l      int
+	after  bool
+	shape  int
+	region bool
+}
+
+type tsdbCopy struct {
+	cut      int // -1: no copy
+	supports bool
+}
+
+type batchLazy struct {
+	batch int
+	lazy  bool
+}
+
+// tsdbSpace: one product of family C.
+type tsdbSpace struct {
+	variants         []labelVariant
+	widths0, widths1 []int
+	frames           []int
+	copies           []tsdbCopy
+	bls              []batchLazy
+	steps            []int64 // the steps after the first only for identical replicas
+}
+
+var tsdbCopyCuts = pickCuts([][]ival{{{0, 2}, {3, 5}}, {{0, 0}, {1, 1}, {2, 2}, {3, 3}, {4, 4}, {5, 5}}, {{0, 5}}})
+
 // genTSDB: family C. Replicas R=1..2 on real TSDBStores: chunk range per store x frame budget x layout of the replica
 // labels x logical series x replica labels x dedup modes x (batch size, retrieval strategy), alone or with a further copy
 // of replica 0 (other cut) on a fake store with / without WithoutReplicaLabels support.
@@ -408,33 +488,64 @@ func (c Case) realClient(st int, rec *frameRec) store.Client {
 // six single-sample chunks without}, (batch,lazy) {(1,eager),(3,eager),(1,lazy)}; thorough: all 6 chunk ranges for every
 // store, all 4 budgets, 3 copy cuts x support, batch {1,3} x {eager, lazy}.
 func genTSDB(thorough bool, yield func(Case) bool) bool {
-	type lv struct {
-		l     int
-		after bool
+	cc := tsdbCopyCuts
+	sp := tsdbSpace{
+		variants: []labelVariant{{l: 1}, {l: 2, after: true}, {l: 2}},
+		widths0:  []int{1, 2, 3, bigWidth}, widths1: []int{1, 3},
+		frames: []int{1, 51, 0},
+		copies: []tsdbCopy{{-1, false}, {cc[0], true}, {cc[1], false}},
+		bls:    []batchLazy{{1, false}, {3, false}, {1, true}},
+		steps:  []int64{10000, 1000},
 	}
-	lvs := []lv{{1, false}, {2, true}, {2, false}}
-	type copyCfg struct {
-		cut      int // -1: no copy
-		supports bool
-	}
-	cc := pickCuts([][]ival{{{0, 2}, {3, 5}}, {{0, 0}, {1, 1}, {2, 2}, {3, 3}, {4, 4}, {5, 5}}, {{0, 5}}})
-	copies := []copyCfg{{-1, false}, {cc[0], true}, {cc[1], false}}
-	widths0, widths1 := []int{1, 2, 3, bigWidth}, []int{1, 3}
-	frames := []int{1, 51, 0}
-	type bl struct {
-		batch int
-		lazy  bool
-	}
-	bls := []bl{{1, false}, {3, false}, {1, true}}
 	if thorough {
-		copies = []copyCfg{{-1, false}}
+		sp.copies = []tsdbCopy{{-1, false}}
 		for _, ci := range cc {
-			copies = append(copies, copyCfg{ci, true}, copyCfg{ci, false})
+			sp.copies = append(sp.copies, tsdbCopy{ci, true}, tsdbCopy{ci, false})
 		}
-		widths0, widths1 = tsdbWidths, tsdbWidths
-		frames = tsdbFrames
-		bls = append(bls, bl{3, true})
+		sp.widths0, sp.widths1 = tsdbWidths, tsdbWidths
+		sp.frames = tsdbFrames
+		sp.bls = append(sp.bls, batchLazy{3, true})
 	}
+	return sp.gen(yield)
+}
+
+// extVariants: the label variants of the external-label dimension: the three variants of family C with the non-replica
+// external label region on every store, and the prefix-shaped label sets {a},{a,pod} / {a},{a,pod},{a,z} / {a},{a,zone}
+// without and with region.
+var extVariants = []labelVariant{
+	{l: 2, shape: 1, region: true}, {l: 3, shape: 1, region: true}, {l: 2, shape: 2, region: true},
+	{l: 2, shape: 1}, {l: 3, shape: 1}, {l: 2, shape: 2},
+	{l: 1, region: true}, {l: 2, after: true, region: true}, {l: 2, region: true},
+}
+
+// genTSDBExt: family C', added after seeded defect C04-r3 escaped: family C with the further dimension "the real stores have
+// a NON-replica external label (region) that is merged into every series" x "label-name shape of the logical series"
+// (prefix-shaped label sets, whose order that merge changes when the extra series label sorts before the external label).
+// quick: chunk ranges {1,big} (second store {3}), budget 1 chunk (= 6 frames / 1 frame per series), {no copy; copy cut 3-3 with support}, step 10 s,
+// (batch,lazy) as family C; thorough: chunk ranges {1,2,3,big} (second store {1,3}), all 4 budgets, 3 copy cuts x support, batch {1,3} x {eager,lazy}, step 10 s.
+func genTSDBExt(thorough bool, yield func(Case) bool) bool {
+	sp := tsdbSpace{
+		variants: extVariants,
+		widths0:  []int{1, bigWidth}, widths1: []int{3},
+		frames: []int{1}, // with chunk range 1 a series takes 6 frames, with the big one a single frame
+		copies: []tsdbCopy{{-1, false}, {tsdbCopyCuts[0], true}},
+		bls:    []batchLazy{{1, false}, {3, false}, {1, true}},
+		steps:  []int64{10000},
+	}
+	if thorough {
+		sp.copies = []tsdbCopy{{-1, false}}
+		for _, ci := range tsdbCopyCuts {
+			sp.copies = append(sp.copies, tsdbCopy{ci, true}, tsdbCopy{ci, false})
+		}
+		// the chunk cut is orthogonal to the label dimension: the chunk ranges of the quick family C, every other alphabet in full
+		sp.widths0, sp.widths1 = []int{1, 2, 3, bigWidth}, []int{1, 3}
+		sp.frames = tsdbFrames
+		sp.bls = append(sp.bls, batchLazy{3, true})
+	}
+	return sp.gen(yield)
+}
+
+func (sp tsdbSpace) gen(yield func(Case) bool) bool {
 	// shapes: replica homes and layouts
 	type shape struct {
 		place  []int
@@ -444,39 +555,38 @@ func genTSDB(thorough bool, yield func(Case) bool) bool {
 		{[]int{0}, 0}, {[]int{0}, 1}, {[]int{0}, 2},
 		{[]int{0, 1}, 0}, {[]int{0, 1}, 1}, {[]int{0, 1}, 2}, {[]int{0, 0}, 1}, {[]int{0, 0}, 2},
 	}
-	steps := []int64{10000, 1000}
 	for _, sh := range shapes {
 		nst := maxOf(sh.place) + 1
 		var wts [][]int
-		for _, w0 := range widths0 {
+		for _, w0 := range sp.widths0 {
 			if nst == 1 {
 				wts = append(wts, []int{w0})
 				continue
 			}
-			for _, w1 := range widths1 {
+			for _, w1 := range sp.widths1 {
 				wts = append(wts, []int{w0, w1})
 			}
 		}
 		for _, wt := range wts {
-			for _, frame := range frames {
-				for _, cpy := range copies {
-					for _, v := range lvs {
+			for _, frame := range sp.frames {
+				for _, cpy := range sp.copies {
+					for _, v := range sp.variants {
 						for labelCfg := 0; labelCfg < 2; labelCfg++ {
 							if sh.layout == 2 && labelCfg != 1 {
 								continue
 							}
 							for mode := 0; mode < 3; mode++ {
-								for si, step := range steps {
+								for si, step := range sp.steps {
 									if si > 0 && mode != 0 {
 										break
 									}
-									for _, b := range bls {
+									for _, b := range sp.bls {
 										widths := append([]int(nil), wt...)
 										cuts := make([]int, len(sh.place))
 										for k, p := range sh.place {
 											cuts[k] = cutIndexOfWidth(widths[p], step)
 										}
-										c := Case{L: v.l, PairAfter: v.after, LabelCfg: labelCfg, Cuts: cuts, Place: sh.place,
+										c := Case{L: v.l, PairAfter: v.after, Shape: v.shape, Region: v.region, LabelCfg: labelCfg, Cuts: cuts, Place: sh.place,
 											Dedup: mode < 2, Identical: mode == 0, Step: step, Lazy: b.lazy, Batch: b.batch,
 											TSDB: &TSDBCfg{Widths: widths, Layout: sh.layout, Frame: frame}}
 										if cpy.cut >= 0 {
@@ -487,6 +597,39 @@ func genTSDB(thorough bool, yield func(Case) bool) bool {
 										if !yield(c) {
 											return false
 										}
+									}
+								}
+							}
+						}
+					}
+				}
+			}
+		}
+	}
+	return true
+}
+
+// genShapes: family D, the same label dimension on FAKE stores (which serve region as part of the label sets): R=2 replicas with
+// every pair of three partition cuts, on one store or on two, x the label variants of family C' x replica labels x the three
+// dedup modes x store support for WithoutReplicaLabels x framing x eager / lazy retrieval [thorough: x batch 1/3].
+func genShapes(thorough bool, yield func(Case) bool) bool {
+	cuts := pickCuts([][]ival{{{0, 5}}, {{0, 2}, {3, 5}}, {{0, 1}, {2, 3}, {4, 5}}})
+	batches := []int{1}
+	if thorough {
+		batches = []int{1, 3}
+	}
+	for _, c0 := range cuts {
+		for _, c1 := range cuts {
+			for _, pl := range [][]int{{0, 0}, {0, 1}} {
+				for _, v := range extVariants {
+					for labelCfg := 0; labelCfg < 2; labelCfg++ {
+						for mode := 0; mode < 3; mode++ {
+							for fl := 0; fl < 8; fl++ {
+								for _, batch := range batches {
+									c := Case{L: v.l, PairAfter: v.after, Shape: v.shape, Region: v.region, LabelCfg: labelCfg, Cuts: []int{c0, c1}, Place: pl,
+										Supports: fl&1 != 0, ChunkPerFrame: fl&2 != 0, Lazy: fl&4 != 0, Dedup: mode < 2, Identical: mode == 0, Step: 10000, Batch: batch}
+									if !yield(c) {
+										return false
 									}
 								}
 							}
